@@ -51,7 +51,7 @@ class C13(Check):
                    "runs that do not stop within the evaluation cap are excluded, not judged (every configuration carries a finite maximum)"]
     excluded_configs = ["reference vectors with some but not all components zero (relative error undefined)",
                         "configurations without max_evaluations", "cell strategy with lmin != lmax (unsupported)",
-                        "extend-split: automatic decision with lmin == lmax and versions 1/2 with lmin >= 2 (known findings of C07)"]
+                        "extend-split: automatic decision with lmin == lmax (known finding of C07)"]
 
     def setup(self):
         import sparseSpACE.spatiallyAdaptiveSingleDimension2, sparseSpACE.spatiallyAdaptiveExtendSplit, sparseSpACE.spatiallyAdaptiveCell  # noqa
@@ -69,8 +69,6 @@ class C13(Check):
             cfg["max_leaves"] = 10 ** 6
             if cfg["lmin"] == cfg["lmax"]:
                 cfg["automatic"] = False
-            if cfg["lmin"] >= 2:
-                cfg["version"] = 0
             if r.random() < 0.25:      # other local grid families that run in this strategy here
                 cfg["grid"] = r.choice(ES.LOCAL_GRIDS[1:])
                 cfg["boundary"] = True
